@@ -417,7 +417,11 @@ def _config_sources(ps):
     for t in texts[:pre]:
         if t == PKA_CTOR:
             out.append("CCtor")
-        elif any(t == PKA_CLI_PREFIX + h for h in PKA_CLI_HELP):
+        elif any(t == PKA_CLI_PREFIX + h for h in PKA_CLI_HELP) or (
+                # the tail of the block only maintains the help-only `--config_path` argument of this parser (its shape has changed with
+                # several fixes); it must not touch defaults or files
+                t.startswith(PKA_CLI_PREFIX + "    if f'--{config_path_name}' not in self._option_string_actions:\n        self.add_argument(")
+                and not any(w in t[len(PKA_CLI_PREFIX):] for w in ("set_defaults", "read_file", "config_file", "_defaults", "constructor_arguments"))):
             out.append("CCli")
         elif "set_defaults" in t or "config_path" in t:
             raise Unrecognised(f"parse_known_args: a statement handling config files changed: {t[:200]}")
